@@ -259,9 +259,20 @@ pub fn run_one(sc: &Scenario, prefix: &[usize], props: &[&str]) -> ExecResult {
                     continue;
                 }
                 let began = ctl2.steps().len();
+                // "deep": a frame the store refuses after its own checks (meta at the nesting limit)
+                let meta = if op.act == "deep" {
+                    let mut m = serde_json::Value::Null;
+                    for _ in 0..127 {
+                        m = serde_json::Value::Array(vec![m]);
+                    }
+                    Some(m)
+                } else {
+                    None
+                };
                 let r = store2.append(
                     Frame::builder(op.topic.clone(), ctx_ids[op.ctx])
                         .maybe_ttl(parse_ttl_opt(&op.ttl))
+                        .maybe_meta(meta)
                         .build(),
                 );
                 let done = ctl2.steps().len();
@@ -884,6 +895,12 @@ fn check_reader(
             }
         }
     }
+    // a frame that was never accepted (its append was refused) is never delivered
+    for f in &real {
+        if !app.iter().any(|a| a.frame.id == f.id) && (c03 || c11) {
+            findings.push(Finding { kind: "follow.phantom".into(), msg: format!("{}: delivered frame {} ({}) which no append or import was ever acknowledged for", name, f.id, f.topic) });
+        }
+    }
     // whatever happens to a frame while the read is under way: a scoped read never hands out a
     // frame that carries another context
     if let Some(c) = scope {
@@ -1130,6 +1147,14 @@ pub fn scenarios(prop: &str, tier: &str) -> Vec<Scenario> {
                 s.bound = Some(1);
                 v.push(s);
             }
+            // an append the store refuses after its own checks is never delivered
+            let mut s = base("h1-begin-refused");
+            s.pre = vec![fs("h", 0, "")];
+            let mut deep = fs("a", 0, "");
+            deep.act = "deep".into();
+            s.writers = vec![vec![deep, fs("a", 0, "")]];
+            s.readers = vec![rd("on", false, None, None, None)];
+            v.push(s);
             // a frame of the reader's scope is moved to another context (imported again under its
             // id) while the replay is under way
             let mut s = base("ctx-replay-vs-move");
@@ -1241,6 +1266,19 @@ pub fn scenarios(prop: &str, tier: &str) -> Vec<Scenario> {
                 }
                 v.push(s);
             }
+            // an append the store refuses while a limited follower is live: it is not delivered and
+            // does not count
+            let mut s = base("n2-tail-refused");
+            s.pre = vec![fs("h", 0, "")];
+            let mut deep = fs("a", 0, "");
+            deep.act = "deep".into();
+            s.writers = vec![vec![fs("a", 0, ""), deep, fs("a", 0, "")]];
+            s.readers = vec![rd("on", true, None, Some(2), None)];
+            s.probe = true;
+            if !thorough {
+                s.bound = Some(1);
+            }
+            v.push(s);
             // tail together with a last-id: tail wins, nothing stored is replayed (and nothing
             // replayed counts towards a limit)
             for (nm, lim) in [("tail-lastid", None), ("n1-tail-lastid", Some(1usize))] {
